@@ -224,6 +224,8 @@ func init() {
 			switch {
 			case strings.Contains(target, "/"):
 				key = target
+			case !strings.HasPrefix(target, "(") && strings.Contains(target, "."):
+				key = target // qualified function of a standard package, e.g. math.Exp
 			case strings.HasPrefix(target, "(*"):
 				key = "(*" + pp + "." + target[2:]
 			case strings.HasPrefix(target, "("):
